@@ -14,7 +14,7 @@ COQ = os.path.join(VERIF, 'coq')
 GEN = os.path.join(COQ, 'gen')
 EVID = os.path.join(VERIF, 'evidence')
 REPLAY = os.path.join(EVID, 'replay')
-REPO = '/repo'
+REPO = os.environ.get('VERIF_REPO', '/repo')
 COQ_FLAGS = ['-Q', 'theories', 'Sismic', '-Q', 'proofs', 'SismicProofs', '-Q', 'props', 'SismicProps']
 NCPU = min(16, os.cpu_count() or 4)
 
